@@ -7,13 +7,20 @@ def run(tier, seed):
     t0 = time.time()
     from contracts.finfields import C26_NATIVES
     tasks = [('lib.native', 'run_natives', ('contracts.finfields', [n], tier)) for n in C26_NATIVES]
+    # proved part (engine A): find_prime_root, one contract per branch, relative to the contracts of is_prime / prev_prime / next_prime / powmod
+    tasks += [('vc.tasks', 'run_contract', ('contracts.finfields_fpr', a, 'contracts.finfields:' + nat, tier))
+              for a, nat in (('fpr_tiny', 'fpr_l2'), ('fpr_n_le_2', 'fpr_n12'), ('fpr_n_gt_2', 'fpr_root'))]
     obs = run_tasks(tasks)
     return finish('C26', tier, seed, obs, 'other', t0,
-                  explanation='bounded contract evaluation on the real find_prime_root(l, blum, n) and on SecInt(l[,p,n]) / SecFxp(l,f[,p,n]) (which call _pfield) under the '
+                  explanation='engine A proves find_prime_root for ALL l and n, branch by branch, relative to the contracts of gmpy2.is_prime / prev_prime / next_prime / powmod '
+                              '(C25): l <= 2: the constant triples; n <= 2: p prime, 3 <= p < 2^l, p = 3 mod 4 when blum, n unchanged, w = p-1 (w != 1, w^2 = 1 mod p) for n = 2 else 1; '
+                              'n > 2: n\' prime >= n, p prime, p > 2^(l-1) (bit length >= l), p = 1 mod 2n\', p = 3 mod 4, 0 <= w < p, w != 1. Not proved: bit length exactly l for n <= 2, '
+                              'w^n\' = 1 (Fermat), termination. In addition, bounded contract evaluation on the real find_prime_root(l, blum, n) and on SecInt(l[,p,n]) / SecFxp(l,f[,p,n]) (which call _pfield) under the '
                               'default one-party runtime with sec_param k in {2,8,30}: p prime (own Miller-Rabin), bit length >= l and == l for n <= 2, p = 3 mod 4 when blum, '
                               'returned order n\' >= requested n, n\' | p-1, w in (0,p) of multiplicative order exactly n\' (w = 1 for n\' = 1, w = p-1 for n\' = 2); '
                               'field order of the secure types > 2^(l+f+k+1) and > number of parties; a given p is rejected with ValueError exactly when p <= 2^(l+f+k+1).',
-                  assumptions=['AssertionError is accepted for the argument combinations the code itself guards by assert (n > 2 with blum=False; l <= 2, blum=False, n != 1)',
+                  assumptions=['elementary facts about primes used as axioms of the proof: 2, 3 prime; 0, 1 and even numbers above 2 not prime; 2^l >= 8 for l >= 3; 2^(l-1) = 4 * 2^(l-3)',
+                               'AssertionError is accepted for the argument combinations the code itself guards by assert (n > 2 with blum=False; l <= 2, blum=False, n != 1)',
                                'Miller-Rabin with the first 12 prime bases is a proof below 3.3e24; for larger p the first 50 prime bases are used (error < 4^-50)',
                                'runtime: m = 1 party, threshold 0 (the clause "larger than the number of parties" is exercised for m = 1 only)',
                                'bounded: l <= 64 (thorough 256 for find_prime_root, 128 for the secure types)'],
